@@ -298,6 +298,33 @@ func (w *World) Commit(b, p, blob string, age int) error {
 	return nil
 }
 
+// Chmod makes a commit on b that changes nothing but the executable bit of p.
+func (w *World) Chmod(b, p string, x bool) error {
+	if err := w.checkout(b, false, ""); err != nil {
+		return err
+	}
+	flag, mode := "--chmod=-x", os.FileMode(0o644)
+	if x {
+		flag, mode = "--chmod=+x", 0o755
+	}
+	os.Chmod(filepath.Join(w.Clone, PathFile(p)), mode)
+	if _, err := w.git("update-index", flag, "--", PathFile(p)); err != nil {
+		return err
+	}
+	date := w.Now - 3600 + int64(len(w.Commits))*60
+	r := w.Env.GitDate(w.Clone, date, "commit", "-q", "-m", fmt.Sprintf("c%d %s chmod %s", len(w.Commits)+1, b, p))
+	if !r.OK() {
+		return fmt.Errorf("chmod commit: %s", r.All())
+	}
+	sha, err := w.head()
+	if err != nil {
+		return err
+	}
+	w.Commits = append(w.Commits, sha)
+	w.Br[b] = len(w.Commits)
+	return nil
+}
+
 // CommitTree applies CommitTree(b, t, age): one commit setting every path of t.
 func (w *World) CommitTree(b string, tree map[string]string, age int) error {
 	_, exists := w.Br[b]
